@@ -161,8 +161,17 @@ func (s *sharedEntryAttributes) toXmlInternal(parent *etree.Element, onlyNewOrUp
 				})
 			}
 
+			// the members of choice cases that lost the case resolution are not configured
+			active := s.filterActiveChoiceCaseChilds()
+
 			// iterate through all the childs
 			for _, k := range keys {
+				if _, isActive := active[k]; !isActive {
+					// they only show up to be deleted
+					if inactive, exists := s.childs.GetEntry(k); !exists || !inactive.shouldDelete() {
+						continue
+					}
+				}
 
 				// for namespace attr creation we need to handle the root node (s.parent == nil) specially
 				if s.parent != nil {
